@@ -17,7 +17,7 @@ var hostileLits = []struct {
 	s string
 	q int
 }{
-	{`"`, 1}, {`say "hi"`, 1}, {"`", 0}, {"a`b", 0}, {`\`, 1}, {`\\`, 0}, {`\"`, 0}, {`\n`, 0}, {`a\tb`, 1},
+	{`"`, 1}, {`say "hi"`, 1}, {"`", 0}, {"a`b", 0}, {`\`, 1}, {`\\`, 2}, {`a\\`, 2}, {`\\\\`, 2}, {`\"`, 0}, {`\n`, 0}, {`a\tb`, 1},
 	{`'`, 2}, {`$`, 2}, {`$0`, 2}, {`%`, 2}, {`%d`, 2}, {`%!s`, 2}, {`{{`, 2}, {`{{.}}`, 2}, {`}}`, 2}, {`*/`, 2}, {`/*`, 2}, {`//`, 2},
 	{`é`, 2}, {`世界`, 2}, {"\t", 2}, {`<-`, 2}, {`:=`, 2}, {`;`, 2}, {`|`, 2}, {`<<`, 2}, {`>`, 2}, {`\x41`, 1}, {`"\"`, 1},
 	{`unknown`, 2}, {`Error`, 2}, {`EOF`, 2}, {"a\nb", 1}, {"\r", 1}, {"x\n// y", 1},
